@@ -57,3 +57,20 @@ Fixpoint lookb (l : list (nat * nat * nat)) (a b : nat) : nat :=
   match l with [] => 0 | (x, y, t) :: r => if (Nat.eqb a x && Nat.eqb b y) || (Nat.eqb a y && Nat.eqb b x) then t else lookb r a b end.
 Definition mkgraph (syms : list string) (nb : list (list nat)) (bonds : list (nat * nat * nat)) : graph :=
   {| size := length syms; sym := fun i => nth_def syms i "?"; nbrs := fun i => nth_def nb i []; bond := lookb bonds |}.
+
+(* ---- the reference notion the property speaks of: a real occurrence of the pattern containing the anchor =
+   an INJECTIVE map of the pattern's atoms into the molecule's atoms that preserves symbols and maps every
+   pattern bond onto a molecule bond of the same type, with the anchor in its image.  Executable (backtracking
+   over the pattern atoms in index order); used as the specification in the refutation theorems. *)
+Section Reference.
+Variables G P : graph.
+Definition compatible (m : list (nat * nat)) (p x : nat) : bool :=
+  String.eqb (sym P p) (sym G x) && negb (existsb (fun q => Nat.eqb (snd q) x) m) &&
+  forallb (fun q => let b := bond P p (fst q) in Nat.eqb b 0 || Nat.eqb b (bond G x (snd q))) m.
+Fixpoint embed (todo : list nat) (m : list (nat * nat)) (anchor : nat) : bool :=
+  match todo with
+  | [] => existsb (fun q => Nat.eqb (snd q) anchor) m
+  | p :: ps => existsb (fun x => compatible m p x && embed ps ((p, x) :: m) anchor) (seq 0 (size G))
+  end.
+Definition occurs_at (anchor : nat) : bool := embed (seq 0 (size P)) [] anchor.
+End Reference.
